@@ -1401,5 +1401,7 @@ end gencount
 -- (third batch: aggregation composes — `agg_comp`, `tot_agg`, `Q_agg_comp`, `agg_compose_smt` for `lemma_agg_compose`: all proved.)
 -- (fourth batch: counting — `card_offdiag_enum(_int)`, `card_upper_enum(_nat)` for `lemma_flat_count`, `tot_indicator_of_injective_cells`
 --  for `lemma_image_count`, `tot_add_transpose` for `lemma_tsum_plus_transpose`: all proved; `Fintype.card ι` is the SMT `n`, hence `n ≥ 0`.)
+-- (fourth batch, continued: `tot_indicator_of_injective_cells_witness` (where-index form of `lemma_image_count`), `tot_add` for
+--  `lemma_tsum_add`, `tot_int` for `lemma_tsum_int`, `tot_offdiag_ones` for `lemma_full_offdiag`: all proved.)
 
 end VerifLemmas
